@@ -323,6 +323,7 @@ def main():
     os.makedirs(MUT_DIR, exist_ok=True)
     cmd = sys.argv[1] if len(sys.argv) > 1 else "report"
     arg = {sys.argv[i]: sys.argv[i + 1] for i in range(2, len(sys.argv) - 1) if sys.argv[i].startswith("--")}
+    """--files a.py,b.py  --hours H  --procs N  --stride K  --offset I  --checks C01,C02"""
     files = arg.get("--files", "").split(",") if arg.get("--files") else None
     lst = os.path.join(MUT_DIR, "mutants.jsonl")
     resf = os.path.join(MUT_DIR, "results.jsonl")
@@ -356,6 +357,14 @@ def main():
             with open(resf, "a") as fh:
                 fh.write(json.dumps(r) + "\n")
             print(r["id"], r["verdict"], r.get("caught_by", ""), flush=True)
+        return 0
+    if cmd == "one":  # python3 mc/mutate.py one <mutant id> [--checks C01,C02]
+        ms = {json.loads(l)["id"]: json.loads(l) for l in open(lst)}
+        m = ms[sys.argv[2]]
+        if arg.get("--checks"):
+            RELEVANT[m["file"]] = arg["--checks"].split(",")
+        r = evaluate(m, int(arg.get("--procs", 16)))
+        print(json.dumps(r, indent=1))
         return 0
     if cmd == "report":
         rs = [json.loads(l) for l in open(resf)]
